@@ -1,19 +1,151 @@
-//! Verification model of the subset of serde_json used by worterbuch's core:
-//! a cheap `Value` (no BTreeMap), value<->T conversion through serde, and
-//! text (de)serialisation entry points that are *not modelled* (they panic).
+//! Verification model of the subset of serde_json used by worterbuch's core.
+//!
+//! `Value` is a *product* (tag + one field per kind), not a Rust enum, and has no layout niche:
+//!   * with an enum `Value`, rustc packs the discriminants of `Value`, `ValueEntry`,
+//!     `Option<ValueEntry>`, `Result<Option<Value>, _>` ... into niches of `Value`; Kani/CBMC then no
+//!     longer constant-folds reads of those tags once a niche-encoded variant (`ValueEntry::Plain`)
+//!     has been moved (measured: every lookup after `Store::delete` of a plain value unfolded);
+//!   * `UnsafeCell` hides the niches of the string / vector payloads.
+//! Conversions `to_value` / `from_value` go through real serde (`Serializer` / `Deserializer` for the
+//! model `Value`). The JSON *text* codec is not modelled (`to_string`/`from_str` are a token codec used
+//! only by the persistence harness, `from_slice` panics).
+use core::cell::UnsafeCell;
 use core::fmt;
 use serde::de::{self, DeserializeOwned, Deserializer, Visitor};
 use serde::ser::{self, Serialize, Serializer};
 
-#[derive(Clone, Debug, PartialEq, Eq, Hash)]
-pub enum Value {
-    Null,
-    Bool(bool),
-    Number(u64),
-    String(String),
-    #[cfg(feature = "nested")]
-    Array(Vec<Value>),
+pub struct NoNiche<T>(UnsafeCell<T>);
+unsafe impl<T: Sync> Sync for NoNiche<T> {}
+impl<T> NoNiche<T> {
+    pub const fn new(t: T) -> Self {
+        NoNiche(UnsafeCell::new(t))
+    }
+    pub fn get(&self) -> &T {
+        unsafe { &*self.0.get() }
+    }
+    pub fn into_inner(self) -> T {
+        self.0.into_inner()
+    }
 }
+
+pub const T_NULL: u8 = 0;
+pub const T_BOOL: u8 = 1;
+pub const T_NUMBER: u8 = 2;
+pub const T_STRING: u8 = 3;
+pub const T_ARRAY: u8 = 4;
+pub const T_OBJECT: u8 = 5;
+
+pub struct Value {
+    tag: u8,
+    b: u8,
+    n: u64,
+    s: NoNiche<String>,
+    #[cfg(feature = "nested")]
+    a: NoNiche<Vec<Value>>,
+    #[cfg(feature = "nested")]
+    o: NoNiche<Vec<(String, Value)>>,
+}
+
+#[allow(non_snake_case, non_upper_case_globals)]
+impl Value {
+    const fn raw(tag: u8, b: u8, n: u64, s: String) -> Value {
+        Value {
+            tag,
+            b,
+            n,
+            s: NoNiche::new(s),
+            #[cfg(feature = "nested")]
+            a: NoNiche::new(Vec::new()),
+            #[cfg(feature = "nested")]
+            o: NoNiche::new(Vec::new()),
+        }
+    }
+    pub const Null: Value = Value::raw(T_NULL, 0, 0, String::new());
+    pub fn Bool(b: bool) -> Value {
+        Value::raw(T_BOOL, b as u8, 0, String::new())
+    }
+    pub fn Number(n: u64) -> Value {
+        Value::raw(T_NUMBER, 0, n, String::new())
+    }
+    pub fn String(s: String) -> Value {
+        Value::raw(T_STRING, 0, 0, s)
+    }
+    #[cfg(feature = "nested")]
+    pub fn Array(a: Vec<Value>) -> Value {
+        let mut v = Value::raw(T_ARRAY, 0, 0, String::new());
+        v.a = NoNiche::new(a);
+        v
+    }
+    #[cfg(feature = "nested")]
+    pub fn Object(o: Vec<(String, Value)>) -> Value {
+        let mut v = Value::raw(T_OBJECT, 0, 0, String::new());
+        v.o = NoNiche::new(o);
+        v
+    }
+    pub fn kind(&self) -> u8 {
+        self.tag
+    }
+    pub fn is_null(&self) -> bool {
+        self.tag == T_NULL
+    }
+    pub fn as_bool(&self) -> Option<bool> {
+        if self.tag == T_BOOL { Some(self.b != 0) } else { None }
+    }
+    pub fn as_u64(&self) -> Option<u64> {
+        if self.tag == T_NUMBER { Some(self.n) } else { None }
+    }
+    pub fn as_str(&self) -> Option<&str> {
+        if self.tag == T_STRING { Some(self.s.get().as_str()) } else { None }
+    }
+    #[cfg(feature = "nested")]
+    pub fn as_array(&self) -> Option<&Vec<Value>> {
+        if self.tag == T_ARRAY { Some(self.a.get()) } else { None }
+    }
+    #[cfg(feature = "nested")]
+    pub fn as_object(&self) -> Option<&Vec<(String, Value)>> {
+        if self.tag == T_OBJECT { Some(self.o.get()) } else { None }
+    }
+    /// harness helper: is this `Bool(b)`?
+    pub fn is_bool(&self, b: bool) -> bool {
+        self.tag == T_BOOL && (self.b != 0) == b
+    }
+}
+
+impl Clone for Value {
+    fn clone(&self) -> Self {
+        Value {
+            tag: self.tag,
+            b: self.b,
+            n: self.n,
+            // only string values own a buffer
+            s: NoNiche::new(if self.tag == T_STRING { self.s.get().clone() } else { String::new() }),
+            #[cfg(feature = "nested")]
+            a: NoNiche::new(if self.tag == T_ARRAY { self.a.get().clone() } else { Vec::new() }),
+            #[cfg(feature = "nested")]
+            o: NoNiche::new(if self.tag == T_OBJECT { self.o.get().clone() } else { Vec::new() }),
+        }
+    }
+}
+
+impl PartialEq for Value {
+    fn eq(&self, o: &Value) -> bool {
+        if self.tag != o.tag {
+            return false;
+        }
+        match self.tag {
+            T_NULL => true,
+            T_BOOL => self.b == o.b,
+            T_NUMBER => self.n == o.n,
+            T_STRING => self.s.get() == o.s.get(),
+            #[cfg(feature = "nested")]
+            T_ARRAY => self.a.get() == o.a.get(),
+            #[cfg(feature = "nested")]
+            T_OBJECT => self.o.get() == o.o.get(),
+            _ => false,
+        }
+    }
+}
+impl Eq for Value {}
 
 impl Default for Value {
     fn default() -> Self {
@@ -21,15 +153,19 @@ impl Default for Value {
     }
 }
 
+impl fmt::Debug for Value {
+    fn fmt(&self, f: &mut fmt::Formatter<'_>) -> fmt::Result {
+        fmt::Display::fmt(self, f)
+    }
+}
 impl fmt::Display for Value {
     fn fmt(&self, f: &mut fmt::Formatter<'_>) -> fmt::Result {
-        match self {
-            Value::Null => f.write_str("null"),
-            Value::Bool(b) => write!(f, "{b}"),
-            Value::Number(n) => write!(f, "{n}"),
-            Value::String(s) => write!(f, "\"{s}\""),
-            #[cfg(feature = "nested")]
-            Value::Array(_) => f.write_str("[..]"),
+        match self.tag {
+            T_NULL => f.write_str("null"),
+            T_BOOL => write!(f, "{}", self.b != 0),
+            T_NUMBER => write!(f, "{}", self.n),
+            T_STRING => write!(f, "\"{}\"", self.s.get()),
+            _ => f.write_str("[..]"),
         }
     }
 }
@@ -56,20 +192,32 @@ impl de::Error for Error {
 
 impl Serialize for Value {
     fn serialize<S: Serializer>(&self, s: S) -> core::result::Result<S::Ok, S::Error> {
-        match self {
-            Value::Null => s.serialize_unit(),
-            Value::Bool(b) => s.serialize_bool(*b),
-            Value::Number(n) => s.serialize_u64(*n),
-            Value::String(x) => s.serialize_str(x),
+        match self.tag {
+            T_NULL => s.serialize_unit(),
+            T_BOOL => s.serialize_bool(self.b != 0),
+            T_NUMBER => s.serialize_u64(self.n),
+            T_STRING => s.serialize_str(self.s.get()),
             #[cfg(feature = "nested")]
-            Value::Array(v) => {
+            T_ARRAY => {
                 use ser::SerializeSeq;
+                let v = self.a.get();
                 let mut q = s.serialize_seq(Some(v.len()))?;
                 for e in v {
                     q.serialize_element(e)?;
                 }
                 q.end()
             }
+            #[cfg(feature = "nested")]
+            T_OBJECT => {
+                use ser::SerializeMap;
+                let v = self.o.get();
+                let mut q = s.serialize_map(Some(v.len()))?;
+                for (k, e) in v {
+                    q.serialize_entry(k, e)?;
+                }
+                q.end()
+            }
+            _ => Err(ser::Error::custom("bad tag")),
         }
     }
 }
@@ -85,6 +233,9 @@ impl<'de> Visitor<'de> for ValueVisitor {
     }
     fn visit_none<E>(self) -> core::result::Result<Value, E> {
         Ok(Value::Null)
+    }
+    fn visit_some<D: Deserializer<'de>>(self, d: D) -> core::result::Result<Value, D::Error> {
+        de::Deserialize::deserialize(d)
     }
     fn visit_bool<E>(self, b: bool) -> core::result::Result<Value, E> {
         Ok(Value::Bool(b))
@@ -106,11 +257,26 @@ impl<'de> Visitor<'de> for ValueVisitor {
         }
         Ok(Value::Array(v))
     }
+    #[cfg(feature = "nested")]
+    fn visit_map<A: de::MapAccess<'de>>(self, mut a: A) -> core::result::Result<Value, A::Error> {
+        let mut v = Vec::new();
+        while let Some((k, e)) = a.next_entry::<String, Value>()? {
+            v.push((k, e));
+        }
+        Ok(Value::Object(v))
+    }
 }
 impl<'de> de::Deserialize<'de> for Value {
     fn deserialize<D: Deserializer<'de>>(d: D) -> core::result::Result<Value, D::Error> {
         d.deserialize_any(ValueVisitor)
     }
+}
+
+pub fn to_value<T: Serialize>(t: T) -> Result<Value> {
+    t.serialize(value_ser::Ser)
+}
+pub fn from_value<T: DeserializeOwned>(v: Value) -> Result<T> {
+    T::deserialize(value_de::De(v))
 }
 
 /// Token codec (NOT JSON): a deterministic, injective text encoding of the few data
@@ -131,12 +297,6 @@ pub fn from_str<T: DeserializeOwned>(s: &str) -> Result<T> {
 pub fn from_slice<T: DeserializeOwned>(_: &[u8]) -> Result<T> {
     panic!("serde_json::from_slice is not modelled")
 }
-pub fn to_value<T: Serialize>(_t: T) -> Result<Value> {
-    panic!("serde_json::to_value is not modelled")
-}
-pub fn from_value<T: DeserializeOwned>(_v: Value) -> Result<T> {
-    Err(Error)
-}
 
 /// Result of `json!({ "k": expr })` in the model: the token text of `expr` (the wrapping
 /// object is dropped consistently on the encode side; harness stand-ins decode the bare text).
@@ -152,6 +312,307 @@ macro_rules! json {
     (null) => { $crate::Value::Null };
     ({ $k:literal : $v:expr }) => { $crate::RawText($crate::to_string(&$v).unwrap()) };
     ($e:expr) => { $crate::to_value(&$e).unwrap() };
+}
+
+/// serde `Serializer` producing a model `Value`
+mod value_ser {
+    use super::{Error, Value};
+    use serde::ser::{self, Impossible, Serialize};
+
+    pub struct Ser;
+    #[cfg(feature = "nested")]
+    pub struct SeqSer(Vec<Value>);
+    #[cfg(feature = "nested")]
+    pub struct MapSer(Vec<(String, Value)>, Option<String>);
+    #[cfg(feature = "nested")]
+    pub struct VariantSer(&'static str, Vec<(String, Value)>);
+    #[cfg(not(feature = "nested"))]
+    pub type SeqSer = Impossible<Value, Error>;
+    #[cfg(not(feature = "nested"))]
+    pub type MapSer = Impossible<Value, Error>;
+    #[cfg(not(feature = "nested"))]
+    pub type VariantSer = Impossible<Value, Error>;
+
+    #[cfg(feature = "nested")]
+    impl ser::SerializeSeq for SeqSer {
+        type Ok = Value;
+        type Error = Error;
+        fn serialize_element<T: ?Sized + Serialize>(&mut self, v: &T) -> Result<(), Error> {
+            self.0.push(v.serialize(Ser)?);
+            Ok(())
+        }
+        fn end(self) -> Result<Value, Error> {
+            Ok(Value::Array(self.0))
+        }
+    }
+    #[cfg(feature = "nested")]
+    impl ser::SerializeTuple for SeqSer {
+        type Ok = Value;
+        type Error = Error;
+        fn serialize_element<T: ?Sized + Serialize>(&mut self, v: &T) -> Result<(), Error> {
+            ser::SerializeSeq::serialize_element(self, v)
+        }
+        fn end(self) -> Result<Value, Error> {
+            ser::SerializeSeq::end(self)
+        }
+    }
+    #[cfg(feature = "nested")]
+    impl ser::SerializeTupleStruct for SeqSer {
+        type Ok = Value;
+        type Error = Error;
+        fn serialize_field<T: ?Sized + Serialize>(&mut self, v: &T) -> Result<(), Error> {
+            ser::SerializeSeq::serialize_element(self, v)
+        }
+        fn end(self) -> Result<Value, Error> {
+            ser::SerializeSeq::end(self)
+        }
+    }
+    #[cfg(feature = "nested")]
+    impl ser::SerializeMap for MapSer {
+        type Ok = Value;
+        type Error = Error;
+        fn serialize_key<T: ?Sized + Serialize>(&mut self, k: &T) -> Result<(), Error> {
+            let k = k.serialize(Ser)?;
+            match k.as_str() {
+                Some(s) => {
+                    self.1 = Some(s.to_owned());
+                    Ok(())
+                }
+                None => Err(Error),
+            }
+        }
+        fn serialize_value<T: ?Sized + Serialize>(&mut self, v: &T) -> Result<(), Error> {
+            let k = self.1.take().ok_or(Error)?;
+            self.0.push((k, v.serialize(Ser)?));
+            Ok(())
+        }
+        fn end(self) -> Result<Value, Error> {
+            Ok(Value::Object(self.0))
+        }
+    }
+    #[cfg(feature = "nested")]
+    impl ser::SerializeStruct for MapSer {
+        type Ok = Value;
+        type Error = Error;
+        fn serialize_field<T: ?Sized + Serialize>(&mut self, k: &'static str, v: &T) -> Result<(), Error> {
+            self.0.push((k.to_owned(), v.serialize(Ser)?));
+            Ok(())
+        }
+        fn end(self) -> Result<Value, Error> {
+            Ok(Value::Object(self.0))
+        }
+    }
+    #[cfg(feature = "nested")]
+    impl ser::SerializeStructVariant for VariantSer {
+        type Ok = Value;
+        type Error = Error;
+        fn serialize_field<T: ?Sized + Serialize>(&mut self, k: &'static str, v: &T) -> Result<(), Error> {
+            self.1.push((k.to_owned(), v.serialize(Ser)?));
+            Ok(())
+        }
+        fn end(self) -> Result<Value, Error> {
+            Ok(Value::Object(vec![(self.0.to_owned(), Value::Object(self.1))]))
+        }
+    }
+    #[cfg(feature = "nested")]
+    impl ser::SerializeTupleVariant for VariantSer {
+        type Ok = Value;
+        type Error = Error;
+        fn serialize_field<T: ?Sized + Serialize>(&mut self, v: &T) -> Result<(), Error> {
+            self.1.push((String::new(), v.serialize(Ser)?));
+            Ok(())
+        }
+        fn end(self) -> Result<Value, Error> {
+            let arr: Vec<Value> = self.1.into_iter().map(|(_, v)| v).collect();
+            Ok(Value::Object(vec![(self.0.to_owned(), Value::Array(arr))]))
+        }
+    }
+
+    impl ser::Serializer for Ser {
+        type Ok = Value;
+        type Error = Error;
+        type SerializeSeq = SeqSer;
+        type SerializeTuple = SeqSer;
+        type SerializeTupleStruct = SeqSer;
+        type SerializeTupleVariant = VariantSer;
+        type SerializeMap = MapSer;
+        type SerializeStruct = MapSer;
+        type SerializeStructVariant = VariantSer;
+        fn serialize_bool(self, v: bool) -> Result<Value, Error> { Ok(Value::Bool(v)) }
+        fn serialize_i8(self, v: i8) -> Result<Value, Error> { self.serialize_i64(v as i64) }
+        fn serialize_i16(self, v: i16) -> Result<Value, Error> { self.serialize_i64(v as i64) }
+        fn serialize_i32(self, v: i32) -> Result<Value, Error> { self.serialize_i64(v as i64) }
+        fn serialize_i64(self, v: i64) -> Result<Value, Error> { if v >= 0 { Ok(Value::Number(v as u64)) } else { Err(Error) } }
+        fn serialize_u8(self, v: u8) -> Result<Value, Error> { Ok(Value::Number(v as u64)) }
+        fn serialize_u16(self, v: u16) -> Result<Value, Error> { Ok(Value::Number(v as u64)) }
+        fn serialize_u32(self, v: u32) -> Result<Value, Error> { Ok(Value::Number(v as u64)) }
+        fn serialize_u64(self, v: u64) -> Result<Value, Error> { Ok(Value::Number(v)) }
+        fn serialize_f32(self, _: f32) -> Result<Value, Error> { Err(Error) }
+        fn serialize_f64(self, _: f64) -> Result<Value, Error> { Err(Error) }
+        fn serialize_char(self, c: char) -> Result<Value, Error> { Ok(Value::String(c.to_string())) }
+        fn serialize_str(self, s: &str) -> Result<Value, Error> { Ok(Value::String(s.to_owned())) }
+        fn serialize_bytes(self, _: &[u8]) -> Result<Value, Error> { Err(Error) }
+        fn serialize_none(self) -> Result<Value, Error> { Ok(Value::Null) }
+        fn serialize_some<T: ?Sized + Serialize>(self, v: &T) -> Result<Value, Error> { v.serialize(self) }
+        fn serialize_unit(self) -> Result<Value, Error> { Ok(Value::Null) }
+        fn serialize_unit_struct(self, _: &'static str) -> Result<Value, Error> { Ok(Value::Null) }
+        fn serialize_unit_variant(self, _: &'static str, _: u32, variant: &'static str) -> Result<Value, Error> { Ok(Value::String(variant.to_owned())) }
+        fn serialize_newtype_struct<T: ?Sized + Serialize>(self, _: &'static str, v: &T) -> Result<Value, Error> { v.serialize(self) }
+        #[cfg(feature = "nested")]
+        fn serialize_newtype_variant<T: ?Sized + Serialize>(self, _: &'static str, _: u32, variant: &'static str, v: &T) -> Result<Value, Error> {
+            Ok(Value::Object(vec![(variant.to_owned(), v.serialize(Ser)?)]))
+        }
+        #[cfg(not(feature = "nested"))]
+        fn serialize_newtype_variant<T: ?Sized + Serialize>(self, _: &'static str, _: u32, _: &'static str, _: &T) -> Result<Value, Error> { Err(Error) }
+        #[cfg(feature = "nested")]
+        fn serialize_seq(self, _: Option<usize>) -> Result<SeqSer, Error> { Ok(SeqSer(Vec::new())) }
+        #[cfg(feature = "nested")]
+        fn serialize_tuple(self, _: usize) -> Result<SeqSer, Error> { Ok(SeqSer(Vec::new())) }
+        #[cfg(feature = "nested")]
+        fn serialize_tuple_struct(self, _: &'static str, _: usize) -> Result<SeqSer, Error> { Ok(SeqSer(Vec::new())) }
+        #[cfg(feature = "nested")]
+        fn serialize_tuple_variant(self, _: &'static str, _: u32, variant: &'static str, _: usize) -> Result<VariantSer, Error> { Ok(VariantSer(variant, Vec::new())) }
+        #[cfg(feature = "nested")]
+        fn serialize_map(self, _: Option<usize>) -> Result<MapSer, Error> { Ok(MapSer(Vec::new(), None)) }
+        #[cfg(feature = "nested")]
+        fn serialize_struct(self, _: &'static str, _: usize) -> Result<MapSer, Error> { Ok(MapSer(Vec::new(), None)) }
+        #[cfg(feature = "nested")]
+        fn serialize_struct_variant(self, _: &'static str, _: u32, variant: &'static str, _: usize) -> Result<VariantSer, Error> { Ok(VariantSer(variant, Vec::new())) }
+        #[cfg(not(feature = "nested"))]
+        fn serialize_seq(self, _: Option<usize>) -> Result<SeqSer, Error> { Err(Error) }
+        #[cfg(not(feature = "nested"))]
+        fn serialize_tuple(self, _: usize) -> Result<SeqSer, Error> { Err(Error) }
+        #[cfg(not(feature = "nested"))]
+        fn serialize_tuple_struct(self, _: &'static str, _: usize) -> Result<SeqSer, Error> { Err(Error) }
+        #[cfg(not(feature = "nested"))]
+        fn serialize_tuple_variant(self, _: &'static str, _: u32, _: &'static str, _: usize) -> Result<VariantSer, Error> { Err(Error) }
+        #[cfg(not(feature = "nested"))]
+        fn serialize_map(self, _: Option<usize>) -> Result<MapSer, Error> { Err(Error) }
+        #[cfg(not(feature = "nested"))]
+        fn serialize_struct(self, _: &'static str, _: usize) -> Result<MapSer, Error> { Err(Error) }
+        #[cfg(not(feature = "nested"))]
+        fn serialize_struct_variant(self, _: &'static str, _: u32, _: &'static str, _: usize) -> Result<VariantSer, Error> { Err(Error) }
+    }
+}
+
+/// serde `Deserializer` consuming a model `Value`
+mod value_de {
+    use super::*;
+    use serde::de::{DeserializeSeed, IntoDeserializer};
+
+    pub struct De(pub Value);
+
+    #[cfg(feature = "nested")]
+    struct SeqDe(std::vec::IntoIter<Value>);
+    #[cfg(feature = "nested")]
+    impl<'de> de::SeqAccess<'de> for SeqDe {
+        type Error = Error;
+        fn next_element_seed<T: DeserializeSeed<'de>>(&mut self, seed: T) -> Result<Option<T::Value>> {
+            match self.0.next() {
+                Some(v) => seed.deserialize(De(v)).map(Some),
+                None => Ok(None),
+            }
+        }
+    }
+    #[cfg(feature = "nested")]
+    struct MapDe(std::vec::IntoIter<(String, Value)>, Option<Value>);
+    #[cfg(feature = "nested")]
+    impl<'de> de::MapAccess<'de> for MapDe {
+        type Error = Error;
+        fn next_key_seed<K: DeserializeSeed<'de>>(&mut self, seed: K) -> Result<Option<K::Value>> {
+            match self.0.next() {
+                Some((k, v)) => {
+                    self.1 = Some(v);
+                    seed.deserialize(De(Value::String(k))).map(Some)
+                }
+                None => Ok(None),
+            }
+        }
+        fn next_value_seed<V: DeserializeSeed<'de>>(&mut self, seed: V) -> Result<V::Value> {
+            match self.1.take() {
+                Some(v) => seed.deserialize(De(v)),
+                None => Err(Error),
+            }
+        }
+    }
+    struct EnumDe(String, Option<Value>);
+    impl<'de> de::EnumAccess<'de> for EnumDe {
+        type Error = Error;
+        type Variant = VariantDe;
+        fn variant_seed<V: DeserializeSeed<'de>>(self, seed: V) -> Result<(V::Value, VariantDe)> {
+            let v = seed.deserialize(De(Value::String(self.0)))?;
+            Ok((v, VariantDe(self.1)))
+        }
+    }
+    struct VariantDe(Option<Value>);
+    impl<'de> de::VariantAccess<'de> for VariantDe {
+        type Error = Error;
+        fn unit_variant(self) -> Result<()> {
+            if self.0.is_none() { Ok(()) } else { Err(Error) }
+        }
+        fn newtype_variant_seed<T: DeserializeSeed<'de>>(self, seed: T) -> Result<T::Value> {
+            match self.0 {
+                Some(v) => seed.deserialize(De(v)),
+                None => Err(Error),
+            }
+        }
+        fn tuple_variant<V: Visitor<'de>>(self, _: usize, visitor: V) -> Result<V::Value> {
+            match self.0 {
+                Some(v) => de::Deserializer::deserialize_seq(De(v), visitor),
+                None => Err(Error),
+            }
+        }
+        fn struct_variant<V: Visitor<'de>>(self, _: &'static [&'static str], visitor: V) -> Result<V::Value> {
+            match self.0 {
+                Some(v) => de::Deserializer::deserialize_map(De(v), visitor),
+                None => Err(Error),
+            }
+        }
+    }
+
+    impl<'de> de::Deserializer<'de> for De {
+        type Error = Error;
+        fn deserialize_any<V: Visitor<'de>>(self, visitor: V) -> Result<V::Value> {
+            let v = self.0;
+            match v.tag {
+                T_NULL => visitor.visit_unit(),
+                T_BOOL => visitor.visit_bool(v.b != 0),
+                T_NUMBER => visitor.visit_u64(v.n),
+                T_STRING => visitor.visit_string(v.s.into_inner()),
+                #[cfg(feature = "nested")]
+                T_ARRAY => visitor.visit_seq(SeqDe(v.a.into_inner().into_iter())),
+                #[cfg(feature = "nested")]
+                T_OBJECT => visitor.visit_map(MapDe(v.o.into_inner().into_iter(), None)),
+                _ => Err(Error),
+            }
+        }
+        fn deserialize_option<V: Visitor<'de>>(self, visitor: V) -> Result<V::Value> {
+            if self.0.tag == T_NULL { visitor.visit_none() } else { visitor.visit_some(self) }
+        }
+        fn deserialize_newtype_struct<V: Visitor<'de>>(self, _: &'static str, visitor: V) -> Result<V::Value> {
+            visitor.visit_newtype_struct(self)
+        }
+        fn deserialize_enum<V: Visitor<'de>>(self, _: &'static str, _: &'static [&'static str], visitor: V) -> Result<V::Value> {
+            let v = self.0;
+            match v.tag {
+                T_STRING => visitor.visit_enum(EnumDe(v.s.into_inner(), None)),
+                #[cfg(feature = "nested")]
+                T_OBJECT => {
+                    let mut o = v.o.into_inner();
+                    if o.len() != 1 {
+                        return Err(Error);
+                    }
+                    let (k, val) = o.pop().unwrap();
+                    visitor.visit_enum(EnumDe(k, Some(val)))
+                }
+                _ => Err(Error),
+            }
+        }
+        serde::forward_to_deserialize_any! {
+            bool i8 i16 i32 i64 i128 u8 u16 u32 u64 u128 f32 f64 char str string bytes byte_buf
+            unit unit_struct seq tuple tuple_struct map struct identifier ignored_any
+        }
+    }
 }
 
 mod token {
